@@ -41,20 +41,23 @@ Proof.
   split; [apply mem_In; exact HeG|].
   intros u Hu. rewrite forallb_forall in HU. specialize (HU u Hu). unfold use_okb in HU.
   destruct (u_kind u); try exact I; try discriminate HU.
+  2:{ apply existsb_exists in HU. destruct HU as [v [Hv He]]. exists v. split; [exact Hv | apply String.eqb_eq; exact He]. }
   apply orb_true_iff in HU. destruct HU as [Hf | Hp].
   - left. apply mem_In. exact Hf.
   - right. apply andb_true_iff in Hp. destruct Hp as [Hp Ho]. apply andb_true_iff in Hp. destruct Hp as [Hp Hm].
     split; [apply mem_In; exact Hp|]. split.
     + apply orb_true_iff in Hm. destruct Hm as [Hm | Hm].
       * left. apply mem2_In. exact Hm.
-      * right. intro Hin. apply mem_In in Hin. rewrite Hin in Hm. discriminate Hm.
+      * right. apply andb_true_iff in Hm. destruct Hm as [Hd Hm]. split; [apply mem_In; exact Hd|].
+        intro Hin. apply mem_In in Hin. rewrite Hin in Hm. discriminate Hm.
     + intros [Hn Hin]. apply mem_In in Hin. rewrite Hin in Ho. rewrite Hn in Ho. rewrite String.eqb_refl in Ho. discriminate Ho.
 Qed.
 
 (* the rule is not vacuous: a table in which an algorithm function reachable from an entry point writes a width,
    or moves a cell outside the three modelled functions, or global placement writes an orientation, is refused *)
 Definition ex_good : list cuse :=
-  [mkU "GlobalPlacer::place" UPass "GlobalPlacer::exportPlacement" 1;
+  [mkU "GlobalPlacer::place" UParam "circuit" 1; mkU "DetailedPlacer::legalize" UParam "circuit" 1; mkU "DetailedPlacer::place" UParam "circuit" 1;
+   mkU "GlobalPlacer::place" UPass "GlobalPlacer::exportPlacement" 1;
    mkU "GlobalPlacer::exportPlacement" UWrite "cellX_" 2; mkU "GlobalPlacer::exportPlacement" UWrite "cellY_" 3;
    mkU "DetailedPlacer::legalize" UPass "Legalizer::exportPlacement" 4;
    mkU "Legalizer::exportPlacement" UWrite "cellX_" 5; mkU "Legalizer::exportPlacement" UWrite "cellY_" 6;
@@ -70,7 +73,11 @@ Example rule_discriminates :
   circuit_uses_okb (mkU "GlobalPlacer::place" UPass "NetModel::exportPlacementX" 20 :: ex_good) = false /\
   circuit_uses_okb (mkU "GlobalPlacer::place" UPass "Legalizer::exportPlacement" 20 :: ex_good) = false /\
   circuit_uses_okb (mkU "DetailedPlacer::place" UCallNC "setCellX" 20 :: ex_good) = false /\
-  circuit_uses_okb (mkU "DensityLegalizer::run" UOther "cellX_" 20 :: ex_good) = false.
+  circuit_uses_okb (mkU "DensityLegalizer::run" UOther "cellX_" 20 :: ex_good) = false /\
+  (* an unknown helper writing a placement field, even when nothing is seen to reach it *)
+  circuit_uses_okb (mkU "detail::nudge" UWrite "cellX_" 20 :: ex_good) = false /\
+  (* the circuit handed to a function the table does not describe *)
+  circuit_uses_okb (mkU "GlobalPlacer::place" UPass "std::ref" 20 :: ex_good) = false.
 Proof. vm_compute. repeat split. Qed.
 
 (* ================================================================================================ C10 *)
